@@ -47,3 +47,46 @@ def module_ast(rel: str) -> ast.Module:
 
 
 ALL = {"PyFuns.lean": gen_pyfuns}
+
+
+def dual_helper_names() -> list[str]:
+    """every function of the library that contains an `is_compiling()` test (a compile-only code path)"""
+    out = []
+    for f in sorted((REPO / "tensordict").rglob("*.py")):
+        tree = ast.parse(f.read_text())
+        rel = str(f.relative_to(REPO / "tensordict"))
+
+        class V(ast.NodeVisitor):
+            def __init__(self):
+                self.stack = []
+
+            def visit_ClassDef(self, n):
+                self.stack.append(n.name)
+                self.generic_visit(n)
+                self.stack.pop()
+
+            def visit_FunctionDef(self, n):
+                self.stack.append(n.name)
+                for ch in ast.walk(n):
+                    if isinstance(ch, ast.Call):
+                        fn = ch.func
+                        nm = fn.id if isinstance(fn, ast.Name) else (fn.attr if isinstance(fn, ast.Attribute) else None)
+                        if nm == "is_compiling":
+                            out.append(rel + ":" + ".".join(self.stack))
+                            break
+                self.generic_visit(n)
+                self.stack.pop()
+
+            visit_AsyncFunctionDef = visit_FunctionDef
+
+        V().visit(tree)
+    return sorted(set(out))
+
+
+def gen_dual_helpers() -> str:
+    names = dual_helper_names()
+    return (HEADER + "namespace TdVerif.Gen\n\n/-- functions containing an `is_compiling()` branch, from the current source -/\n"
+            "def dualHelpers : List String := [\n  " + ",\n  ".join(lean_str(n) for n in names) + "]\n\nend TdVerif.Gen\n")
+
+
+ALL["DualHelpers.lean"] = gen_dual_helpers
